@@ -26,8 +26,8 @@ def run(ck):
     m = ck.repo.mod(REL)
     fn = m.func("possible_values")
     ep = fn.args.args[0].arg
-    ck.rule("R1", "every class dispatched; every child enumerated or constrained; node rebuilt faithfully", floor=14)
-    ck.rule("R2", "the non-zero arm carries the != 0 constraint, the zero arm the == 0 constraint", floor=4)
+    ck.rule("R1", "every class dispatched; every child enumerated or constrained; node rebuilt faithfully", floor=12)
+    ck.rule("R2", "the non-zero arm carries the != 0 constraint, the zero arm the == 0 constraint", floor=2)
     ck.rule("R4", "constraints of opposite polarity on one condition stay distinct members of a constraint set", floor=1)
     # constraints live in frozensets that are united along the product: an equality/hash on the constraint classes that does not
     # look at the polarity (class or `operator`) merges `c == 0` with `c != 0`, and an infeasible alternative looks satisfiable
@@ -42,8 +42,8 @@ def run(ck):
             ck.ob("R4", "%s.%s" % (cname, meth), polar, m.where(f_),
                   "%s.%s ignores the polarity of the constraint (neither the class nor `operator` takes part): `c == 0` and `c != 0` "
                   "collapse to one member of a constraint set" % (cname, meth))
-    ck.rule("R3", "n-ary nodes: Cartesian product of alternatives, union of constraints", floor=4)
-    ck.rule("R5", "the container of alternatives is a plain set: it does not redefine how members are added, merged or compared", floor=2)
+    ck.rule("R3", "n-ary nodes: Cartesian product of alternatives, union of constraints", floor=2)
+    ck.rule("R5", "the container of alternatives is a plain set: it does not redefine how members are added, merged or compared", floor=1)
     # possible_values fills its result through add() / update(): alternatives are distinct (constraints, value) pairs, and two alternatives
     # with the same value reached under different constraints must both stay (merging them keeps a constraint set that none of the paths
     # guarantees).  The container class may add presentation methods only; the tuple class must keep the namedtuple equality.
@@ -170,7 +170,10 @@ def run(ck):
         ck.ob("R2", "ExprCond:src1-nonzero", a1 == [nonzero_cls], m.where(br), "alternatives of src1 (taken when cond != 0) carry %s, expected %s" % (a1, nonzero_cls))
         ck.ob("R2", "ExprCond:src2-zero", a2 == [zero_cls], m.where(br), "alternatives of src2 (taken when cond == 0) carry %s, expected %s" % (a2, zero_cls))
     zf = m.func("%s.to_constraint" % zero_cls)
-    ok = any(isinstance(n, ast.Return) and norm(n.value).replace("m2_expr.", "") == "ExprAssign(self.expr, ExprInt(0, self.expr.size))" for n in walk_body(zf))
+    from sa.astutil import Resolver as _Res0
+    _rz = _Res0(zf)
+    ok = any(isinstance(n, ast.Return) and n.value is not None and _rz.expand(n.value).replace("m2_expr.", "") == "ExprAssign(self.expr, ExprInt(0, self.expr.size))"
+             for n in walk_body(zf))
     ck.ob("R2", "%s.to_constraint" % zero_cls, ok, m.where(zf), "the == 0 constraint must be `expr = 0`")
     nf = m.func("%s.to_constraint" % nonzero_cls)
     from sa.astutil import Resolver as _Res
